@@ -85,6 +85,18 @@ var alphaBig = []hx.Op{
 	{K: "reopen"},
 }
 
+// ordinary (memtable) batches whose WAL record spans several 32 KiB blocks: an unsynced one can be
+// torn between blocks, with any subset of its block writes surviving; recovery must drop it whole
+var alphaPad = []hx.Op{
+	{K: "set", Key: "b", Sync: true},
+	{K: "batch", Pad: 70000, Sync: true, Sub: sub(hx.Op{K: "set", Key: "a"})},
+	{K: "batch", Pad: 40000, Sub: sub(hx.Op{K: "set", Key: "a"}, hx.Op{K: "del", Key: "b"})},
+	{K: "set", Key: "c", Sync: true},
+	{K: "flush"},
+	{K: "reopen"},
+	{K: "del", Key: "a", Sync: true},
+}
+
 var configs = map[string]hx.Config{
 	"base":         {Name: "base"},
 	"tinymem":      {Name: "tinymem", MemTableSize: 16 << 10},
@@ -414,7 +426,7 @@ func plansFor(prop string, thorough bool) []plan {
 		if !thorough {
 			return []plan{{"base", alphaSync, 3, false}, {"tinymanifest", alphaSync, 2, false}, {"tinymem", alphaSync, 2, false}, {"base", alphaSync[:8], 2, true}, {"tinymem", alphaBig, 3, false}}
 		}
-		return []plan{{"base", alphaSync, 4, false}, {"tinymanifest", alphaSync, 3, false}, {"tinymem", alphaSync, 3, false}, {"fmv-min", alphaSync, 3, false}, {"valsep", alphaSync, 3, false}, {"base", alphaSync[:9], 3, true}, {"tinymanifest", alphaSync[:9], 2, true}, {"tinymem", alphaBig, 4, false}}
+		return []plan{{"base", alphaPad, 2, false}, {"base", alphaSync, 4, false}, {"tinymanifest", alphaSync, 3, false}, {"tinymem", alphaSync, 3, false}, {"fmv-min", alphaSync, 3, false}, {"valsep", alphaSync, 3, false}, {"base", alphaSync[:9], 3, true}, {"tinymanifest", alphaSync[:9], 2, true}, {"tinymem", alphaBig, 4, false}}
 	}
 }
 
@@ -429,7 +441,10 @@ func TestCheck(t *testing.T) {
 			return
 		}
 		var notes []string
-		for _, p := range plansFor(c.Prop, c.Thorough()) {
+		for pi, p := range plansFor(c.Prop, c.Thorough()) {
+			if only := os.Getenv("VERIF_PLAN"); only != "" && only != fmt.Sprint(pi) {
+				continue // debugging aid: run the plan with this index only
+			}
 			cfg := configs[p.cfg]
 			k := len(p.alpha)
 			n := vlib.SeqCount(k, p.depth, p.depth)
